@@ -172,7 +172,8 @@ func (c *ClusterNodes) isChanged(allNodes []*ClusterNode) (changed bool) {
 		if n.Role == Master {
 			serverNames = append(serverNames, fmt.Sprintf("%s#%d#%v", n.Addr, n.Role, n.Slots))
 		} else {
-			serverNames = append(serverNames, fmt.Sprintf("%s#%d", n.Addr, n.Role))
+			// a replica that moved to another master is a change too
+			serverNames = append(serverNames, fmt.Sprintf("%s#%d#%s", n.Addr, n.Role, n.MasterId))
 		}
 	}
 	sort.Strings(serverNames)
